@@ -561,9 +561,9 @@ Proof.
   - assert (Hs : stored_versions file = Some cur) by (apply G1; reflexivity).
     destruct file as [f|]; [|discriminate]. left. exists f. cbn in Hs. inversion Hs. auto.
   - assert (Hn : stored_versions file <> Some cur) by (intros H; apply G1 in H; discriminate).
-    right. rewrite (G2 Hn) in E. destruct rc; [auto | discriminate].
+    right. specialize (G2 Hn). destruct rc; [auto | discriminate].
   - assert (Hn : stored_versions file <> Some cur) by (intros H; apply G1 in H; discriminate).
-    rewrite (G2 Hn) in E. destruct rc; [discriminate | auto].
+    specialize (G2 Hn). destruct rc; [discriminate | auto].
 Qed.
 
 Theorem open_db_mismatch_blind file1 file2 cur rc :
@@ -603,3 +603,37 @@ Proof.
   destruct (forallb (N.eqb c) l) eqn:E; [|reflexivity].
   rewrite forallb_forall in E. apply E in Hin. apply N.eqb_eq in Hin. contradiction.
 Qed.
+
+(* ---------- non-vacuity ---------- *)
+
+Definition ex_r1 : dbresult :=
+  mkDbRes [1; 0; 255] 5 3 2 [([0], false, false); ([], true, false); ([49], false, true); ([49; 46; 48], true, true)].
+Definition ex_t1 : tables := set_rule_result (empty_tables 18 7) [0; 0] ex_r1.
+
+Example tables_example :
+  WF ex_t1 /\ room ex_t1 ex_r1 /\
+  lookup_rule_result ex_t1 [0; 0] = Found ex_r1 /\
+  lookup_rule_result (fresh_process ex_t1) [0; 0] = Found ex_r1 /\
+  lookup_rule_result (set_rule_result ex_t1 [] (mkDbRes [] 0 4 4 [([0; 0], false, false)])) [0; 0] = Found ex_r1 /\
+  lookup_rule_result ex_t1 [0] = NotFound /\
+  map fst (key_names ex_t1) = [1; 2; 3; 4; 5].
+Proof.
+  split; [|split; [|repeat split; vm_compute; reflexivity]].
+  - apply set_rule_result_WF; [apply WF_empty|]. unfold room. vm_compute. reflexivity.
+  - unfold room. vm_compute. reflexivity.
+Qed.
+
+Example gate_example :
+  open_decision (Some (18, 7)) (18, 7) false = UseStored /\
+  open_decision (Some (17, 7)) (18, 7) true = Recreate /\
+  open_decision (Some (18, 6)) (18, 7) false = Reject /\
+  open_decision None (18, 7) false = Reject /\
+  open_db (Some ex_t1) (18, 8) true = Some (empty_tables 18 8) /\
+  open_db (Some ex_t1) (18, 7) false = Some (fresh_process ex_t1).
+Proof. repeat split; vm_compute; reflexivity. Qed.
+
+Example lock_example :
+  lock_run [LStart 1; LStart 2; LComplete 1; LStart 2] = [2] /\
+  build_started [1] 2 = ([1], false) /\ db_write [1] 2 ex_t1 [] ex_r1 = None /\
+  db_write [1] 1 ex_t1 [] ex_r1 <> None.
+Proof. repeat split; try (vm_compute; reflexivity). vm_compute. discriminate. Qed.
